@@ -137,12 +137,12 @@ func (e *SpecEnv) eval(x Expr) Val {
 			}
 			return Val{T: fmt.Sprintf("(mk-slice (sl.arr %s) %s %s %s)", s.T, g.idxAdd(fmt.Sprintf("(sl.off %s)", s.T), lo), g.idxSub(hi, lo), g.idxSub(fmt.Sprintf("(sl.cap %s)", s.T), lo)), S: sSlice, G: s.G}
 		case KStr:
-			hi := fmt.Sprintf("(str.len %s)", s.T)
+			hi := fmt.Sprintf("(gstr.len %s)", s.T)
 			if n.Hi != nil {
 				hi = e.idxVal(n.Hi)
 			}
 			g.needStrSub()
-			return Val{T: fmt.Sprintf("(str.sub %s %s %s)", s.T, lo, hi), S: sStr, G: s.G}
+			return Val{T: fmt.Sprintf("(gstr.sub %s %s %s)", s.T, lo, hi), S: sStr, G: s.G}
 		}
 		g.errorf("spec: slice of %s", x.String())
 		return s
@@ -638,7 +638,7 @@ func (e *SpecEnv) evalIndex(n EIndex) Val {
 	case *types.Basic:
 		if x.S.K == KStr {
 			i := e.idxVal(n.I)
-			return Val{T: fmt.Sprintf("(str.at %s %s)", x.T, i), S: g.byteSort(), G: types.Typ[types.Uint8]}
+			return Val{T: fmt.Sprintf("(gstr.at %s %s)", x.T, i), S: g.byteSort(), G: types.Typ[types.Uint8]}
 		}
 	case *types.Pointer:
 		if at, ok := t.Elem().Underlying().(*types.Array); ok {
@@ -661,7 +661,7 @@ func (e *SpecEnv) evalCall(n ECall) Val {
 		case KSlice:
 			return Val{T: fmt.Sprintf("(sl.%s %s)", n.Fn, x.T), S: g.idxSort(), G: types.Typ[types.Int]}
 		case KStr:
-			return Val{T: fmt.Sprintf("(str.len %s)", x.T), S: g.idxSort(), G: types.Typ[types.Int]}
+			return Val{T: fmt.Sprintf("(gstr.len %s)", x.T), S: g.idxSort(), G: types.Typ[types.Int]}
 		case KRef:
 			if mt, ok := x.G.Underlying().(*types.Map); ok {
 				dn, _ := g.mapNames(mt)
